@@ -84,6 +84,21 @@ exact (fun K I c ind g hwf hc hind =>
 Qed.
 Print Assumptions C08_spec_variants.
 
+(* the chain form evaluated directly over the specification columns (no memo tables; used by the correspondence
+   check for columns with 2^9..2^13 bipartitions) is the specification, for every instance *)
+Theorem C08_chain_form :
+  forall (K : fieldType) (I : inst K) c ind g,
+    (c < size (i_cols I))%N ->
+    @posterior_chain_gen K 0 1 +%R *%R (fun x y => x / y) (ntrans (i_ped I)) (nassign (i_ped I)) (geno (i_ped I))
+       (@spec_cols K 0 1 +%R (fun x y => x - y) *%R (fun x y => x / y) I) c ind g
+    = @posterior_spec K 0 1 +%R (fun x y => x - y) *%R (fun x y => x / y) I c ind g.
+Proof.
+exact (fun K I c ind g hc =>
+         @posterior_chain_gen_eq K (i_ped I) (geno (i_ped I)) _ c ind g
+           (eq_ind_r (fun n => (c < n)%N) hc (size_map _ (i_cols I)))).
+Qed.
+Print Assumptions C08_chain_form.
+
 (* non-vacuity: a single individual (one read over two columns) and a trio (one read of the child), exact
    rational arithmetic: the instances are well-formed and the run succeeds *)
 Definition C08_q (a b : nat) : rat := a%:R / b%:R.
